@@ -9,6 +9,7 @@
 pub open spec fn is_query(t: UriElement) -> bool { t is Query }
 
 //@ fn canonical.rs u8_to_upper_hex
+//@ params b
 //@ props C08 C09 C10
 //@ ret r
 //@ spec
@@ -18,6 +19,7 @@ pub open spec fn is_query(t: UriElement) -> bool { t is Query }
 //@ end
 
 //@ fn canonical.rs is_rfc3986_unreserved
+//@ params c
 //@ props C08 C09 C10
 //@ ret r
 //@ spec
@@ -30,6 +32,7 @@ pub open spec fn is_query(t: UriElement) -> bool { t is Query }
 pub open spec fn d6_class(s: Seq<u8>, t: UriElement) -> bool { !is_query(t) && !plus_free(s) }
 
 //@ fn canonical.rs normalize_uri_element
+//@ params uri_el uri_el_type
 //@ hideutf8
 //@ props C08 C09 C10 C02
 //@ ret res
@@ -77,6 +80,7 @@ pub open spec fn d6_class(s: Seq<u8>, t: UriElement) -> bool { !is_query(t) && !
 //@ end
 
 //@ fn canonical.rs normalize_uri_path_component
+//@ params path
 //@ props C08 C09
 //@ ret res
 //@ spec
@@ -90,6 +94,7 @@ pub open spec fn d6_class(s: Seq<u8>, t: UriElement) -> bool { !is_query(t) && !
 //@ end
 
 //@ fn canonical.rs normalize_query_string_element
+//@ params element
 //@ props C08 C10
 //@ ret res
 //@ spec
@@ -103,6 +108,7 @@ pub open spec fn d6_class(s: Seq<u8>, t: UriElement) -> bool { !is_query(t) && !
 //@ end
 
 //@ fn canonical.rs normalize_header_value
+//@ params value
 //@ props C08 C11 C02
 //@ ret res
 //@ spec
@@ -126,6 +132,7 @@ pub open spec fn d6_class(s: Seq<u8>, t: UriElement) -> bool { !is_query(t) && !
 
 
 //@ fn canonical.rs latin1_to_string
+//@ params bytes
 //@ props C08 C19 C05
 //@ ret r
 //@ spec
@@ -138,6 +145,7 @@ pub open spec fn d6_class(s: Seq<u8>, t: UriElement) -> bool { !is_query(t) && !
 
 
 //@ fn canonical.rs unescape_uri_encoding
+//@ params s
 //@ hideutf8
 //@ props C08 C02 C19
 //@ ret r
